@@ -1,13 +1,18 @@
 """C20 — the inline-storage vector behaves like a standard vector.
 
 Lean: a model of small_vector<T,S> with explicit storage and object lifetimes
-(Vita/C20/Model.lean) and the proofs that, for every operation sequence, it refines the
-List semantics of std::vector, raises no lifetime fault and leaks nothing at the end
-(Vita/C20/Props.lean).  Tie: scripts of public operations on two vectors are run through
-the compiled small_vector<T,S> (S = 1..8; T = int, double, std::string, a lifetime-tracking
-type) under ASan/LSan next to a std::vector<T> (the harness's own oracle) and through the
-compiled Lean model; contents, observations and lifetime events are compared after every
-operation.
+(Vita/C20/Model.lean), parametric in the element type's == and <, and the proofs that, for
+every operation sequence, it refines the List semantics of std::vector, raises no lifetime
+fault and leaks nothing at the end (Vita/C20/Props.lean).
+Tie (A): tools/translate_smallvec.py regenerates Vita/C20/Gen.lean from the clang AST (statement
+skeleton of every function of small_vector.{h,tcc}; members used by the library); Props proves
+that the skeletons are the ones the model implements and that every used member is modelled.
+Tie (B): scripts of public operations on two vectors are run through the compiled
+small_vector<T,S> (S = 1..8; T = int, double, std::string, a lifetime-tracking type, a padded
+POD with key-only equality; values include +-0, NaN, inf) under ASan/LSan next to a
+std::vector<T> (the harness's own oracle) and through the compiled Lean model; contents,
+observations (incl. all six relational operators, also across inline capacities) and lifetime
+events are compared after every operation.
 """
 import json
 import os
@@ -837,6 +842,35 @@ def translate(chk, broken):
         chk.count("user:" + spec, len(sigs))
 
 
+def skeleton_diff():
+    """Which functions of Gen.lean (from the AST) differ from Skeleton.lean (what the model implements)."""
+    import difflib
+    import re
+
+    def defs(path):
+        try:
+            txt = open(path).read()
+        except OSError:
+            return {}
+        out = {}
+        for m in re.finditer(r"^def (\w+Sk) : List Sk := (.*?)(?=^\s*$)", txt, re.M | re.S):
+            out[m.group(1)] = [ln.strip() for ln in m.group(2).strip().splitlines()]
+        return out
+    g = defs(os.path.join(C.LEAN, "Vita", "C20", "Gen.lean"))
+    h = defs(os.path.join(C.LEAN, "Vita", "C20", "Skeleton.lean"))
+    msgs = []
+    for k in sorted(set(g) | set(h)):
+        if k not in h:
+            msgs.append("%s: new function, not in the model" % k)
+        elif k not in g:
+            msgs.append("%s: function no longer in the sources" % k)
+        elif g[k] != h[k]:
+            d = [ln for ln in difflib.unified_diff(h[k], g[k], "model", "source", lineterm="", n=0)
+                 if not ln.startswith(("---", "+++", "@@"))]
+            msgs.append("%s: %s" % (k, " | ".join(d[:8])))
+    return msgs
+
+
 def run(chk, replay=None):
     rng = C.SplitMix(chk.seed)
     quick = chk.tier == "quick"
@@ -849,7 +883,10 @@ def run(chk, replay=None):
         broken.append("the model / driver does not build: " + C.lean_errors(out))
     ok, msg = chk.prove("Vita.C20.Props", ["Vita.C20.Props"])
     if not ok:
-        broken.append("theorems of Vita.C20.Props no longer check: " + msg)
+        sd = skeleton_diff()
+        broken.append("theorems of Vita.C20.Props no longer check: " + msg +
+                      ("\nstatement skeletons that differ from the model (- model / + source): " + "; ".join(sd[:6])
+                       if sd else ""))
 
     exe = build_header_only("c20_smallvec", ["-O0"])
 
@@ -997,13 +1034,21 @@ def run(chk, replay=None):
         chk.notes += broken[:6]
     return chk.finish(
         level="proof",
-        checker_cmd="lake build Vita.C20.Props && lake env lean <#print axioms for every theorem>",
-        rule="scripts of public operations on two small_vector<T,S> (T in int,double,string,tracked; S in 1..8): "
-             "directed families (every insert position x range length x spare capacity, assignment/construction "
-             "matrix across the inline/heap boundary, self-referential push_back at every capacity boundary, resize "
-             "transitions, rejected requests) + random scripts; distinct = distinct complete scripts; after every "
-             "operation the compiled vector is compared with std::vector, the lifetime registry and the Lean model",
-        trusted=["Lean 4.33 kernel", "Vita/C20/Model.lean: hand-written model of small_vector.tcc at the granularity "
-                 "of the std algorithms it calls (tied by the differential run)",
-                 "std::vector<T> of libstdc++ as reference semantics", "the Tracked element type and registry of "
-                 "harness/c20_smallvec.cc", "g++ 12.2 ASan/UBSan/LSan"])
+        checker_cmd="python3 tools/translate_smallvec.py && lake build Vita.C20.Props && lake env lean <#print axioms "
+                    "for every theorem>",
+        rule="scripts of public operations on two small_vector<T,S> (T in int,double,string,tracked,pod; S in 1..8; "
+             "element values include +-0, NaNs, infinities and PODs that are == with different bytes): directed "
+             "families (six operators x equal / ==-variant / NaN / smaller / larger / shorter / longer operand x inline "
+             "or heap x mixed inline capacities; accessors, iterators, observers; emplace_back with 0..3 arguments; "
+             "list iterators; every insert position x range length x spare capacity; assignment/construction matrix "
+             "across the inline/heap boundary; self-referential push_back at every capacity boundary; resize "
+             "transitions; rejected requests) + random scripts; distinct = distinct complete scripts; after every "
+             "operation the compiled vector is compared with std::vector, the lifetime registry and the Lean model; "
+             "the statement skeleton of all functions and the members used by the library are re-extracted from the "
+             "clang AST and checked against the model by Lean",
+        trusted=["Lean 4.33 kernel", "Vita/C20/Model.lean: hand-written model of small_vector.{h,tcc} at the granularity "
+                 "of the std algorithms it calls (tied by the differential run, the skeleton obligations and, for "
+                 "resize, the denotation theorem)",
+                 "tools/translate_smallvec.py + cxx2lean.py (clang-14 JSON AST -> statement skeletons, used members)",
+                 "std::vector<T> of libstdc++ as reference semantics", "the Tracked / Pod element types, the id<->value "
+                 "encodings and the registry of harness/c20_smallvec.cc", "g++ 12.2 ASan/UBSan/LSan"])
